@@ -134,6 +134,50 @@ def differ_only_in_sign_of_zero(a, b):
     return True
 
 
+def _has_nan_literal(op):
+    for x in op:
+        if isinstance(x, list):
+            if len(x) == 2 and x[0] == "v":
+                if x[1][0] != "s" and is_nan_value(decode_value(x[1])):
+                    return True
+            elif x and x[0] != "R" and _has_nan_literal(x):
+                return True
+    if op and op[0] == "const" and op[1][0] != "s" and is_nan_value(decode_value(op[1])):
+        return True
+    return False
+
+
+def _numeric_slots(op, path=()):
+    """Paths of the literal number operands (["v", spec]) of a resolved plain request."""
+    out = []
+    for i, x in enumerate(op):
+        if isinstance(x, list) and x:
+            if len(x) == 2 and x[0] == "v":
+                out.append(path + (i,))
+            elif x[0] not in ("R", "r", "t"):
+                out += _numeric_slots(x, path + (i,))
+    return out
+
+
+def _with_slot(op, path, spec):
+    import copy
+
+    def cp(x):
+        # shallow-copy lists but never the resolved expression objects
+        if isinstance(x, list):
+            if x and x[0] == "R":
+                return x
+            return [cp(y) for y in x]
+        return x
+
+    new = cp(op)
+    cur = new
+    for p in path[:-1]:
+        cur = cur[p]
+    cur[path[-1]] = ["v", spec]
+    return new
+
+
 def is_zero_value(v):
     if isinstance(v, (str, bool)):
         return False
@@ -257,9 +301,13 @@ def gen_ops(rng, kn, n, depth=0):
             op = ["rewrite", ref()]
         elif r < 0.97:
             op = ["print", ref(), rng.choice(["python", "numpy", "stablehlo", "cpp"])]
-        else:
+        elif r < 0.985:
             op = ["again", rng.randrange(1 << 16)]
-        if fault is not None and op[0] not in ("again",):
+        else:
+            # an earlier request again (new number objects of equal value, which then die), immediately
+            # followed by the same request with one number changed
+            op = ["again_then_vary", rng.randrange(1 << 16), rng.choice(pool)]
+        if fault is not None and op[0] not in ("again", "again_then_vary"):
             op = ["fault", fault, op]
         ops.append(op)
     return ops
@@ -385,8 +433,7 @@ class Sim:
 
         def wrapper(ctx, expr):
             got = orig(ctx, expr)
-            sim.keep.append(got)
-            sim.keep.append(expr)
+            sim.keep.append(got)  # (the discarded candidate is *not* kept: it must die as it does in user code)
             sim.bump(sim.stats, "registrations")
             if got is not expr:
                 sim.bump(sim.stats, "registrations_hit")
@@ -420,14 +467,30 @@ class Sim:
 
     # ---- resolution of literal arguments
     def ref(self, spec):
+        if spec[0] == "R":  # already resolved (see resolve())
+            return spec[1]
         if not self.vals:
             self.vals.append(self.ctx.symbol("x", "float"))
         return self.vals[spec[1] % len(self.vals)]
 
     def operand(self, spec):
-        if spec[0] == "r":
+        if spec[0] in ("r", "R"):
             return self.ref(spec)
+        # a fresh number object every time, dropped after the request: temporaries die as in user code,
+        # so that anything keyed by the address of a number meets recycled addresses
         return decode_value(spec[1])
+
+    def resolve(self, op):
+        """The request with its expression references resolved to objects (numbers stay literal specs),
+        so that it can be re-issued verbatim later with *new* number objects of equal value."""
+        def r(x):
+            if isinstance(x, list) and len(x) == 2 and x[0] == "r" and isinstance(x[1], int):
+                return ["R", self.ref(x)]
+            if isinstance(x, list) and x and x[0] != "R":
+                return [r(y) for y in x]
+            return x
+
+        return [op[0]] + [r(y) for y in op[1:]]
 
     # ---- request vs result (check 1: the `only if` direction)
     def const_value_of(self, obj):
@@ -566,7 +629,7 @@ class Sim:
         elif op[0] == "op" and op[1] in ARITH:
             sub = []
             for a in op[2]:
-                if a[0] == "r":
+                if a[0] in ("r", "R"):
                     t = self.req_tree.get(id(self.ref(a)))
                 else:
                     v = decode_value(a[1])
@@ -627,15 +690,17 @@ class Sim:
             raise UserAbort("user function failed half-way")
         try:
             if t in ("sym", "const", "op", "select", "list", "item", "len"):
+                op = self.resolve(op)
                 call, check = self.do_plain(op)
                 res = self.with_fault(fault, call) if fault else call()
                 if not isinstance(res, self.Expr):
                     self.bump(self.stats, "non_expr_result")
                     return None
                 check(res)
+                del call, check  # drops the number objects of this request
                 self.note_object(res)
                 self.record_tree(op, res)
-                self.done.append((call, check, res))
+                self.done.append((op, res))
                 self.vals.append(res)
                 self.bump(self.stats, "completed:" + t)
                 self.log.ev("ok", res.kind, len(res.operands))
@@ -643,13 +708,28 @@ class Sim:
             if t == "again":
                 if not self.done:
                     return None
-                call, check, prev = self.done[op[1] % len(self.done)]
+                op0, prev = self.done[op[1] % len(self.done)]
+                call, check = self.do_plain(op0)  # same expression operands, new number objects of equal value
                 res = call()
                 check(res)
+                del call, check
                 self.bump(self.stats, "again")
-                if res is not prev and not (prev.kind == "constant" and is_nan_value(self.const_value_of(prev))):
+                if res is not prev and not (prev.kind == "constant" and is_nan_value(self.const_value_of(prev))) \
+                        and not _has_nan_literal(op0):
+                    # (a request with a NaN literal builds a NaN constant; two NaN constants may or may not
+                    # be one object, so neither may the expressions built on them)
                     self.violation("duplicate", "again:" + prev.kind, first=repr(prev), second=repr(res))
                 return res
+            if t == "again_then_vary":
+                cands = [d for d in self.done if _numeric_slots(d[0])]
+                if not cands:
+                    return None
+                op0, prev = cands[op[1] % len(cands)]
+                self.step(["again", self.done.index((op0, prev))])
+                slots = _numeric_slots(op0)
+                varied = _with_slot(op0, slots[op[1] % len(slots)], op[2])
+                self.bump(self.probes, "request_repeated_then_varied_in_one_number")
+                return self.step(varied)
             if t in ("trace", "call"):
                 return self.do_nested(op, fault)
             if t == "lib":
